@@ -240,6 +240,19 @@ func TestC04Enum(t *testing.T) {
 		}
 	}
 	global.CountN("enum.escape_spellings", 7*len(c04Escapes))
+	// a key repeated inside one object, with every pair of value kinds, at several depths
+	kinds := []string{"1", "\"s\"", "null", "true", "1.5", "[]", "[1]", "{}", "{\"x\":1}", "{\"a\":{}}"}
+	for _, tpl := range []string{"{\"a\":§,\"a\":¶}", "[{\"a\":§,\"b\":0,\"a\":¶}]", "{\"o\":{\"\":§,\"\":¶}}", "{\"a\":§,\"a\":¶,\"a\":§}"} {
+		for _, v1 := range kinds {
+			for _, v2 := range kinds {
+				in := strings.ReplaceAll(strings.ReplaceAll(tpl, "§", v1), "¶", v2)
+				if err := RunCase(p, &C04Case{Mode: "bytes", Bytes: RawBytes(in)}); err != nil {
+					t.Fatalf("C04 repeated-key enumeration %q: %v", in, err)
+				}
+			}
+		}
+	}
+	global.CountN("enum.repeated_keys", 4*len(kinds)*len(kinds))
 }
 
 var c04Escapes = []string{`\x00`, `\x41`, `\x7f`, `\x80`, `\xff`, `\xc3\xa9`, `\xc3`, `\xZZ`, `\x4`, `\377`, `\000`, `\101`, `\303\251`, `\400`, `\8`, `\0`,
